@@ -568,6 +568,8 @@ def seq_elem(seq, i):
         return seq.elem[1](t)
     if isinstance(seq.elem, tuple) and seq.elem[0] == 'coded':
         return SCoded(seq.elem[1], V.simp(t))
+    if seq.elem == 'opaque':
+        return SAbs('opaque_item', t)                  # an item of a havocked list: nothing is known about it
     raise E.Unsupported('element kind %r' % (seq.elem,))
 
 
